@@ -96,7 +96,12 @@ func (fr *frame) evalCall(st *State, call *ast.CallExpr) []*Value {
 				fn, recv = fval.Fn.Fn, fval.Fn.Recv
 			} else if lit, ok := fval.Fn.Lit.(*ast.FuncLit); ok {
 				args := fr.evalArgs(st, call, fr.typeOf(lit).(*types.Signature))
-				return fr.callLiteral(st, fval, lit, args)
+				res := fr.callLiteral(st, fval, lit, args)
+				// `ghost at call <local>`: a call through a local that holds a function literal
+				if id, ok := unparen(call.Fun).(*ast.Ident); ok {
+					fr.fc.ghostHook(st, fr, call, id.Name, nil)
+				}
+				return res
 			}
 		}
 		if fn == nil {
@@ -1137,6 +1142,28 @@ func (fr *frame) applyContractSig(st *State, call *ast.CallExpr, name string, si
 	env2.old = &SpecEnv{reg: fc.reg, pkg: p, st: pre, vars: env2.vars, fr: localsFr}
 	for _, cl := range c.Clauses {
 		if cl.Kind == "ensures" {
+			if strings.Contains(name, "$closure") {
+				// the contract of a function literal applied where the literal is called (flag use=contract): a
+				// postcondition that names a local of the literal's own body cannot be stated at the call site;
+				// it is left out there (assuming less is sound) and stays an obligation of the literal's own unit
+				var t *Term
+				func() {
+					defer func() {
+						if r := recover(); r != nil {
+							if se, ok := r.(specError); ok && strings.Contains(se.msg, "unknown identifier") {
+								fc.reg.assumptions[fmt.Sprintf("postcondition %q of %s names a local of the literal and is not used at its call sites", nonEmpty(cl.Name, cl.Text), name)] = true
+								return
+							}
+							panic(r)
+						}
+					}()
+					t = env2.evalBool(cl.Expr)
+				}()
+				if t != nil {
+					st.assume(t)
+				}
+				continue
+			}
 			st.assume(env2.evalBool(cl.Expr))
 		}
 	}
